@@ -54,6 +54,8 @@ enum Mutation {
     ResignedKeepingVictimKey,
     /// Honest message by the attacker (valid; must be attributed to the attacker).
     AttackerSigned,
+    /// Correctly signed by the attacker, but for an unsupported message version.
+    AttackerSignedOtherVersion(u8),
 }
 
 #[derive(Clone, Debug, Serialize, Deserialize)]
@@ -145,6 +147,13 @@ fn mutate(bytes: &[u8], m: &Mutation, attacker: &SigningKey) -> Vec<u8> {
             let sig = attacker.sign(&payload);
             encode_raw(1, &raw.key, &sig.to_bytes(), raw.timestamp, raw.logical, &text(&body))
         }
+        Mutation::AttackerSignedOtherVersion(v) => {
+            let version = if *v == 1 { 2 } else { *v as u64 };
+            let key = attacker.verifying_key();
+            let payload = signed_payload(version, key.as_bytes(), raw.timestamp, raw.logical, &body);
+            let sig = attacker.sign(&payload);
+            encode_raw(version, key.as_bytes(), &sig.to_bytes(), raw.timestamp, raw.logical, &text(&body))
+        }
         Mutation::AttackerSigned => {
             let key = attacker.verifying_key();
             let payload = signed_payload(1, key.as_bytes(), raw.timestamp, raw.logical, &body);
@@ -159,7 +168,11 @@ fn check(case: &Case) -> CaseResult {
         .enable_all()
         .build()
         .map_err(|e| e.to_string())?;
-    rt.block_on(async {
+    // `unconstrained`: the harness polls the subscription by hand many times inside one poll of
+    // this block_on task; tokio's cooperative budget (128 operations per task poll) would make
+    // the broadcast receiver return Pending with a *deferred* wake-up that only fires when the
+    // task yields to the scheduler – an artefact of hand-driving, not of the code under test.
+    rt.block_on(tokio::task::unconstrained(async {
         MockClock::set_system_time(Duration::from_micros(case.initial_clock));
         let env = EphEnv::new(64).await;
         let victim = SigningKey::from_bytes(&[0xD1; 32]);
@@ -282,7 +295,7 @@ fn check(case: &Case) -> CaseResult {
             .label_if(valid_mutant_rejected > 0, "mutant_valid_by_harness_but_rejected")
             .label_if(injected_n > 0, "has_injections")
             .label_if(case.publishes.len() >= 5, "five_or_more_publishes"))
-    })
+    }))
 }
 
 fn clock() -> impl Strategy<Value = Clock> {
@@ -307,6 +320,7 @@ fn mutation() -> impl Strategy<Value = Mutation> {
         3 => (any::<u16>(), any::<u8>()).prop_map(|(p, m)| Mutation::ByteFlip(p, m)),
         2 => Just(Mutation::ResignedKeepingVictimKey),
         1 => Just(Mutation::AttackerSigned),
+        2 => prop_oneof![Just(2u8), Just(0u8), any::<u8>()].prop_map(Mutation::AttackerSignedOtherVersion),
     ]
 }
 
